@@ -1,1 +1,238 @@
-/-! C14 — property theorems (placeholder until the model exists). -/
+import EupsModel.Lemmas.RemoveClosure
+import EupsModel.Lemmas.DepsTotal
+/-! C14 — remove deletes exactly what was asked and never something still needed.
+Property theorems only (model: `Model/Remove.lean`, lemmas: `Lemmas/Remove.lean`). -/
+namespace EupsModel.C14
+open EupsModel EupsModel.Deps EupsModel.Remove
+
+variable (s : State) (uses : UsesOutcome) (name ver : Str) (recursive check force : Bool) (dn : Option Str)
+
+/-- **Refusal changes nothing.**  Whatever the outcome other than success — refusal because a product is in
+use, an unknown product, a failed listing — the state is the one before the command: collection precedes
+destruction. -/
+theorem C14_refuses (h : (removeWith s uses name ver recursive check force dn).1 ≠ .ok) :
+    (removeWith s uses name ver recursive check force dn).2.1 = s := by
+  rcases removeWith_failed_or_ok s uses name ver recursive check force dn with ⟨e, R, he⟩ | ⟨s', R, hok⟩
+  · rw [he]
+  · rw [hok] at h; exact absurd rfl h
+
+/-- **Exactly what was collected.**  After a successful `remove` the declarations, tags and directories are
+those of before minus the ones of the removed products `R`: every declaration, tag and directory outside
+`R` is untouched, and those of `R` are gone. -/
+theorem C14_exact (s' : State) (R : List Prod)
+    (h : removeWith s uses name ver recursive check force dn = (.ok, s', R)) :
+    s'.decls = s.decls.filter (fun d => !removed R d.name d.ver) ∧
+    s'.tags = s.tags.filter (fun t => !removed R t.1 t.2.2) ∧
+    s'.dirs = s.dirs.filter (fun d => !removed R d.1 d.2) := by
+  obtain ⟨sb, l, sn, _, h2, h3, _, _⟩ := removeWith_ok h
+  subst h2 h3
+  exact ⟨rfl, rfl, rfl⟩
+
+/-- Without `--recursive` the removed set is the requested product alone (or nothing, for the default product). -/
+theorem C14_exact_nonrecursive (s' : State) (R : List Prod)
+    (h : removeWith s uses name ver false check force dn = (.ok, s', R)) :
+    R = [⟨name, some ver, true⟩] ∨ (R = [] ∧ dn = some name) := by
+  obtain ⟨sb, l, sn, hl, _, h3, _, _⟩ := removeWith_ok h
+  subst h3
+  rcases collect_nonrecursive _ _ _ _ _ _ _ _ _ _ _ hl with ⟨rfl, hd⟩ | ⟨p, hp, rfl⟩
+  · right; exact ⟨by simp [uniqProds, Topo.dedup], hd⟩
+  · left
+    have : p = ⟨name, some ver, true⟩ := by
+      simp only [Db.find] at hp
+      split at hp <;> simp_all
+    subst this; simp [uniqProds, Topo.dedup]
+
+/-- **With `--recursive` the removed set is the dependency closure `remove` walks**: the products *opened* from
+the requested one (itself, and every declared direct dependency — `-j` or not — of an opened product that bears
+another name) together with all their direct dependencies; nothing else.  (`Opened`, `Collected`:
+`Lemmas/RemoveClosure.lean`.  Stacks without unsetup lines, no default product.) -/
+theorem C14_exact_recursive (hns : NoUnsetup s.db) (s' : State) (R : List Prod)
+    (h : removeWith s uses name ver true check force none = (.ok, s', R)) (q : Prod) :
+    q ∈ R ↔ Collected s.db ⟨name, some ver, true⟩ q := by
+  obtain ⟨sb, l, sn, hl, _, h3, _, _⟩ := removeWith_ok h
+  subst h3
+  obtain ⟨p, hp, hiff⟩ := collect_is_closure s.db hns sb force (name, ver) _ name (some ver) l sn hl
+  have : p = ⟨name, some ver, true⟩ := by
+    simp only [Db.find] at hp
+    split at hp <;> simp_all
+  subst this
+  rw [mem_uniqProds]; exact hiff q
+
+/-- On success the requested product itself is among the removed ones (unless it is the default product). -/
+theorem C14_requested_is_removed (s' : State) (R : List Prod)
+    (h : removeWith s uses name ver recursive check force dn = (Remove.Outcome.ok, s', R))
+    (hd : dn ≠ some name) : ⟨name, some ver, true⟩ ∈ R := by
+  obtain ⟨sb, l, sn, hl, _, h3, _, _⟩ := removeWith_ok h
+  subst h3
+  obtain ⟨p, hp, hpl⟩ := collect_contains_self _ _ _ _ _ _ _ _ _ _ _ _ hl hd
+  have : p = ⟨name, some ver, true⟩ := by
+    simp only [Db.find] at hp
+    split at hp <;> simp_all
+  subst this
+  exact (mem_uniqProds l _).mpr hpl
+
+/-- **Never something still needed.**  With the in-use check on and force off, a successful `remove` deletes
+only products whose every user (as `uses` reports them) is the requested product itself — which is removed too. -/
+theorem C14_never_still_needed (sb : SetupBy) (s' : State) (R : List Prod)
+    (h : removeWith s (.ok sb) name ver recursive true false dn = (.ok, s', R)) :
+    ∀ p ∈ R, ∀ u ∈ users sb p.name p.ver, u.name = name ∧ u.ver = ver := by
+  obtain ⟨sb0, l, sn, hl, _, h3, _, hsb⟩ := removeWith_ok h
+  obtain ⟨sb', hu, rfl⟩ := hsb rfl
+  have : sb = sb' := by injection hu
+  subst this h3
+  intro p hp u hu
+  have hp' := (mem_uniqProds l p).mp hp
+  have := collect_checked _ _ _ _ _ _ _ _ _ _ _ hl p hp'
+  simp only [inUse, usedBy, Bool.not_eq_false', List.isEmpty_iff, List.filter_eq_nil_iff] at this
+  have := this u hu
+  simpa using this
+
+/-- **Never something still needed, in terms of the listings.**  With the in-use check on and force off, after a
+successful `remove` the only declared product whose dependency listing holds a removed product is the
+requested product itself (which is removed too): no product that remains declared needs a removed one. -/
+theorem C14_never_still_needed_listing (s' : State) (R : List Prod)
+    (h : remove s name ver recursive true false dn = (Remove.Outcome.ok, s', R))
+    (p : Prod) (hp : p ∈ R) (d : Decl) (hd : d ∈ s.decls) (l : List Entry)
+    (hl : getDependentProducts s.db s.db.fuel ⟨d.name, some d.ver, true⟩ true false = .ok l)
+    (e : Entry) (he : e ∈ l) (hn : e.prod.name = p.name) (hv : e.prod.ver = p.ver) :
+    d.name = name ∧ d.ver = ver := by
+  unfold remove at h
+  cases hu : usesInfo s.db s.db.fuel with
+  | outOfFuel => simp [removeWith, hu] at h
+  | cycle => simp [removeWith, hu] at h
+  | ok sb =>
+    rw [hu] at h
+    have hex : ∃ u ∈ users sb p.name p.ver, u.name = d.name ∧ u.ver = d.ver ∧ u.need = p.ver :=
+      (uses_inverse s.db s.db.fuel sb hu p.name p.ver d.name d.ver p.ver).mpr
+        ⟨Or.inr rfl, d, hd, rfl, rfl, l, hl, e, he, hn, hv⟩
+    obtain ⟨u, hu', h1, h2, _⟩ := hex
+    have := C14_never_still_needed s name ver recursive dn sb s' R h p hp u hu'
+    rw [← h1, ← h2]; exact this
+
+/-- `--noCheck`: the command never refuses on the grounds that a product is in use. -/
+theorem C14_noCheck : (removeWith s uses name ver recursive false force dn).1 ≠ .failed .refused := by
+  intro h
+  rcases removeWith_failed h with ⟨hc, _⟩ | ⟨sb, hsb, hc⟩ | ⟨he, _⟩ | ⟨he, _⟩
+  · exact absurd hc (by simp)
+  · rw [hsb rfl] at hc
+    exact collect_not_refused _ none force dn _ (Or.inl rfl) _ _ _ _ _ hc
+  · cases he
+  · cases he
+
+/-- `--force`: the command never refuses — neither because a product is in use nor because one is set up. -/
+theorem C14_force (e : Err) (h : (removeWith s uses name ver recursive check true dn).1 = .failed e) :
+    e ≠ .refused ∧ e ≠ .isSetup := by
+  rcases removeWith_failed h with ⟨_, ⟨_, rfl⟩ | ⟨_, rfl⟩⟩ | ⟨sb, _, hc⟩ | ⟨_, hf⟩ | ⟨rfl, _⟩
+  rotate_right
+  · exact ⟨by simp, by simp⟩
+  · exact ⟨by simp, by simp⟩
+  · exact ⟨by simp, by simp⟩
+  · refine ⟨fun he => ?_, fun he => ?_⟩
+    · subst he; exact collect_not_refused _ sb true dn _ (Or.inr rfl) _ _ _ _ _ hc
+    · subst he
+      -- `collect` never yields `isSetup`
+      have hk : ∀ f n v r sn, collect s.db sb true dn (name, ver) f n v r sn ≠ .error .isSetup := by
+        intro f
+        induction f with
+        | zero => intro n v r sn; simp [collect]
+        | succ k ih =>
+          intro n v r sn
+          unfold collect
+          split
+          · simp
+          · split
+            · simp
+            · simp only
+              split
+              · rename_i e' he'
+                rcases directDeps_error he' with rfl | rfl <;> simp
+              · have loop : ∀ qs acc sn', collectLoop sb true (name, ver) r
+                    (fun q sn => collect s.db sb true dn (name, ver) k q.name q.ver (q.name != n) sn) qs acc sn'
+                    ≠ .error .isSetup := by
+                  intro qs
+                  induction qs with
+                  | nil => intro acc sn'; simp [collectLoop]
+                  | cons q qs ihq =>
+                    intro acc sn'
+                    rw [collectLoop_cons]
+                    split
+                    · simp
+                    · split
+                      · cases hq : collect s.db sb true dn (name, ver) k q.name q.ver (q.name != n) sn' with
+                        | error e' =>
+                          simp only
+                          intro hh; injection hh with hh; subst hh; exact ih _ _ _ _ hq
+                        | ok r' => obtain ⟨sub, sn2⟩ := r'; exact ihq _ _
+                      · exact ihq _ _
+                exact loop _ _ _
+      exact hk _ _ _ _ _ hc
+  · exact absurd hf (by simp)
+
+/-- **`remove` ends** (tree with the D33 repair): on a stack whose tables are plain (no unsetup lines, every table
+file present), dependency cycles included, the command never dies in the recursion (`RecursionError`), the in-use
+index is always built and no table fails to load — the only ways not to remove are the refusals (a product is
+in use; a product is set up; the database may not be written) and an unknown product. -/
+theorem C14_terminates (hns : NoUnsetup s.db) (e : Err)
+    (h : (remove s name ver recursive check force dn).1 = .failed e) :
+    e = .refused ∨ e = .notFound ∨ e = .isSetup ∨ e = .noPermission := by
+  unfold remove at h
+  obtain ⟨sb, hsb⟩ := usesInfo_total s.db hns
+  rw [hsb] at h
+  rcases removeWith_failed h with ⟨_, ⟨hu, _⟩ | ⟨hu, _⟩⟩ | ⟨sb', _, hc⟩ | ⟨he, _⟩ | ⟨he, _⟩
+  rotate_right
+  · exact Or.inr (Or.inr (Or.inr he))
+  · cases hu
+  · cases hu
+  · have hfuel := (collect_fuel s.db hns sb' force dn (name, ver) s.removeFuel name (some ver) recursive []
+      (removeFuel_enough s)).1
+    rcases collect_error_kinds s.db hns sb' force dn (name, ver) _ _ _ _ _ _ hc with rfl | rfl | rfl
+    · exact Or.inl rfl
+    · exact Or.inr (Or.inl rfl)
+    · exact absurd hc hfuel
+  · exact Or.inr (Or.inr (Or.inl he))
+
+/-- **A set-up product is never removed behind the user's back, and never half-way** (tree with the D37 repair):
+unless forced, a successful `remove` removed no product that is set up; the refusal (`C14_refuses`) comes before
+anything is destroyed. -/
+theorem C14_setup_refused (s' : State) (R : List Prod)
+    (h : removeWith s uses name ver recursive check false dn = (.ok, s', R)) :
+    ∀ p ∈ R, s.isSetup p = false := by
+  have hc := removeWith_course s uses name ver recursive check false dn
+  rw [h] at hc
+  cases hc with
+  | done sb l sn _ _ _ hno =>
+    rcases hno with hf | hno
+    · exact absurd hf (by simp)
+    · exact hno
+
+/-! Non-vacuity: `app 1 → lib 1 ← other 1`.  Removing `app` recursively is refused (lib is in use by `other`),
+succeeds with `--noCheck` taking `lib` along, and a plain removal of `app` leaves everything else alone.
+`cyc`: `x 1 ↔ y 1`, a dependency cycle: the recursive removal ends and takes both (D33 repaired). -/
+section Example
+def a : Str := [97]
+def l : Str := [108]
+def o : Str := [111]
+def v1 : Str := [49]
+def ex : State :=
+  { decls := [⟨a, v1, [⟨false, false, l, none, false⟩], false⟩, ⟨l, v1, [], false⟩,
+              ⟨o, v1, [⟨false, false, l, none, false⟩], false⟩]
+    tags := [(a, currentTag, v1), (l, currentTag, v1), (o, currentTag, v1)]
+    dirs := [(a, v1), (l, v1), (o, v1)] }
+
+example : (remove ex a v1 true true false none).1 = .failed .refused := by decide
+example : (remove ex a v1 true true false none).2.1 = ex := by decide
+example : (remove ex a v1 true false false none).2.2 = [⟨a, some v1, true⟩, ⟨l, some v1, true⟩] := by decide
+example : (remove ex a v1 false true false none).2.1.decls.map (·.name) = [l, o] := by decide
+
+def x : Str := [120]
+def y : Str := [121]
+def cyc : State :=
+  { decls := [⟨x, v1, [⟨false, false, y, none, false⟩], false⟩, ⟨y, v1, [⟨false, false, x, none, false⟩], false⟩]
+    tags := [(x, currentTag, v1), (y, currentTag, v1)]
+    dirs := [(x, v1), (y, v1)] }
+example : (remove cyc x v1 true false false none).2.2 = [⟨x, some v1, true⟩, ⟨y, some v1, true⟩] := by decide
+example : (remove cyc x v1 true false false none).2.1 = ⟨[], [], [], [], true⟩ := by decide
+example : (remove cyc x v1 true true false none).1 = .failed .refused := by decide
+end Example
+
+end EupsModel.C14
